@@ -2136,8 +2136,24 @@ class NLProblemBuilder {
     // and, e.g.,
     // github.com/jump-dev/MathOptInterface.jl/blob/master/src/FileFormats/NL/README.md
     int k=0;                             // current block position
+    // The block sizes below are differences and sums of header fields;
+    // reject headers in which a class is larger than the whole
+    // (this also keeps the int arithmetic from overflowing).
+    const int class_sizes[] = {
+      h.num_nl_vars_in_cons, h.num_nl_vars_in_objs, h.num_nl_vars_in_both,
+      h.num_linear_binary_vars, h.num_linear_integer_vars,
+      h.num_nl_integer_vars_in_both, h.num_nl_integer_vars_in_cons,
+      h.num_nl_integer_vars_in_objs };
+    for (int size: class_sizes)
+      if (size > h.num_vars)
+        throw Error("NLProblemBuilder: invalid variable counts in the header");
     const int num_nl_vars = std::max(h.num_nl_vars_in_cons,
                                      h.num_nl_vars_in_objs);
+    typedef long long LL;
+    if (LL(h.num_nl_vars_in_both) + h.num_nl_integer_vars_in_cons > h.num_vars ||
+        LL(num_nl_vars) + h.num_linear_integer_vars +
+          h.num_linear_binary_vars > h.num_vars)
+      throw Error("NLProblemBuilder: invalid variable counts in the header");
     if (num_nl_vars) {
       DoAddVars(h.num_nl_vars_in_both - h.num_nl_integer_vars_in_both,
               var::CONTINUOUS, k);
